@@ -166,8 +166,10 @@ func (c *Conversation) receiveDecoded(message messageWithHeader) (plain MessageP
 		plain, toSend, err = c.receiveAKEMessage(msgType, messageBody)
 	}
 
-	if err != nil {
-		// a message that is rejected must not bind us to the instance that sent it
+	if err != nil || msgType == msgTypeData {
+		// a message that is rejected must not bind us to the instance that sent it; a data message never
+		// binds: it is only accepted from the instance the key exchange bound us to, and its rejection
+		// can be silent (IGNORE_UNREADABLE)
 		c.theirInstanceTag = previousInstanceTag
 	}
 
